@@ -118,6 +118,12 @@ pub fn bursts() -> Vec<Burst> {
     v.push(mk("oper-vs-whois-vs-nick", base_cfg(), 3, users3(), vec![], chan3.clone(), vec![(0, vec!["OPER op oppw"]), (1, vec!["WHOIS carol"]), (2, vec!["NICK caro"])]));
     v.push(mk("oper-vs-names-vs-join", base_cfg(), 3, users3(), vec![], vec![(0, "JOIN #c"), (1, "JOIN #c")], vec![(0, vec!["OPER op oppw"]), (1, vec!["NAMES #c"]), (2, vec!["JOIN #c"])]));
     v.push(mk("oper-vs-list-vs-topic", base_cfg(), 3, users3(), vec![], chan3.clone(), vec![(0, vec!["OPER op oppw"]), (1, vec!["LIST"]), (2, vec!["TOPIC #c :t"])]));
+    // one command naming several channels is one step: nobody sees (or acts on) half of it
+    let two: Vec<(usize, &'static str)> = vec![(0, "JOIN #a,#b"), (1, "JOIN #a,#b")];
+    v.push(mk("part2-vs-whois", base_cfg(), 3, users3(), vec![], two.clone(), vec![(0, vec!["PART #a,#b"]), (1, vec!["WHOIS alice"])]));
+    v.push(mk("part2-vs-privmsg2", base_cfg(), 3, users3(), vec![], two.clone(), vec![(0, vec!["PART #a,#b"]), (1, vec!["PRIVMSG #a,#b :x"])]));
+    v.push(mk("join2-vs-names2", base_cfg(), 3, users3(), vec![], vec![(1, "JOIN #a,#b")], vec![(0, vec!["JOIN #a,#b"]), (1, vec!["NAMES #a,#b"])]));
+    v.push(mk("kick2-vs-privmsg2", base_cfg(), 3, users3(), vec![], vec![(0, "JOIN #a"), (1, "JOIN #a"), (2, "JOIN #a")], vec![(0, vec!["KICK #a bob,carol"]), (1, vec!["PRIVMSG #a,carol :x"])]));
     v.push(mk("quit-vs-invite", base_cfg(), 3, users3(), vec![], vec![(0, "JOIN #c"), (1, "JOIN #c")], vec![(0, vec!["INVITE carol #c"]), (2, vec!["QUIT"])]));
     v
 }
